@@ -245,6 +245,23 @@ pub fn run_base(slots: &mut Vec<Option<Unimock>>, unwinding: bool, base: &Base) 
             if !alive(slots, i) {
                 return "invalid".into();
             }
+            if unwinding {
+                // the call is made by cleanup code (a guard's Drop) while the thread unwinds from an unrelated panic; a panic
+                // of the call is swallowed there (it must not leave the destructor)
+                struct Cleanup<'a>(&'a mut Option<Unimock>, u32, u8, &'a mut Option<String>);
+                impl Drop for Cleanup<'_> {
+                    fn drop(&mut self) {
+                        assert!(std::thread::panicking());
+                        *self.3 = Some(call_any(self.0, self.1, self.2));
+                    }
+                }
+                let mut res = None;
+                let _ = catch_unwind(AssertUnwindSafe(|| {
+                    let _cleanup = Cleanup(&mut slots[i], m, a, &mut res);
+                    panic!("user");
+                }));
+                return res.expect("cleanup ran");
+            }
             call_any(&mut slots[i], m, a)
         }
         Base::Clone(i) => {
